@@ -33,6 +33,8 @@ type WireItem struct {
 	MigrateOut  string
 	MigrateErr  error
 	Migrated    string // kessoku.go
+	Migrated3   string // output of a run into a path holding a longer stale file
+	ThirdRun    bool
 	Migrated2   string // second run
 	GenOut      string
 	GenErr      error
@@ -128,6 +130,15 @@ func (p *WirePipe) Run(cfgs []*wirecorp.Config, workers int, withWire bool) {
 				// second run into another file: must be byte-identical
 				out2 := filepath.Join(p.S.Dir, "second_"+c.Name+".go")
 				_ = os.Rename(outPath, out2)
+				// a run (same input: the first output is moved away) into a path outside the package that
+				// already holds a longer, stale file
+				out3 := filepath.Join(p.S.Dir, "third_"+c.Name+".go")
+				_ = os.WriteFile(out3, []byte(it.Migrated+"\n// stale tail of an older, longer output\nvar verifStaleLeftover = 1\n"), 0o644)
+				if _, err := load.Run(p.Dir, false, 3*time.Minute, nil, p.CLI, "migrate", "-o", out3, "./b_"+c.Name); err == nil {
+					if d3, err := os.ReadFile(out3); err == nil {
+						it.Migrated3, it.ThirdRun = string(d3), true
+					}
+				}
 				if _, err := load.Run(p.Dir, false, 3*time.Minute, nil, p.CLI, "migrate", "-o", outPath, "./b_"+c.Name); err == nil {
 					if d2, err := os.ReadFile(outPath); err == nil {
 						it.Migrated2 = string(d2)
